@@ -22,6 +22,19 @@ if TYPE_CHECKING:
     from ._graph import Graph
 
 
+# Operators of the default domain whose result is sampled at run time (with or without a ``seed`` attribute: runtimes draw differently)
+_RANDOM_OPERATORS = frozenset(
+    {
+        "Bernoulli",
+        "Multinomial",
+        "RandomNormal",
+        "RandomNormalLike",
+        "RandomUniform",
+        "RandomUniformLike",
+    }
+)
+
+
 class StandardNode(Node):
     """
     Base type for a Node which has a known reference Schema (``self.schema``), extracted based on the ``op_type``.
@@ -155,6 +168,12 @@ class StandardNode(Node):
 
         The backend used for the propagation can be configured with the `spox._standard.ValuePropBackend` variable.
         """
+        # A random draw is not a constant: whatever a backend samples now says nothing about what the model computes
+        if (
+            self.op_type.domain in ("", "ai.onnx")
+            and self.op_type.identifier in _RANDOM_OPERATORS
+        ):
+            return {}
         # Cannot do propagation when some inputs were not propagated/inferred
         if any(
             var.type is None or var._value is None
